@@ -556,6 +556,17 @@ def run(chk):
         if outs[0] != outs[1] and 'CRASH' not in outs[0]:
             chk.finding('lazybb-far-code', dict(kind='ifaces', text=j['text'], specs=specs, calls=j['calls'], opt=j['opt'], outs=outs),
                         'lazy-BB generation with code regions > 2 GiB apart: %s' % outs[1][-160:])
+    # Witness of fixes/C03-5.patch (target_change_to_direct_calls writes NULL into the constant of an indirect call whose
+    # callee has no machine code yet; needs code regions > 2 GiB apart): run while the finding is listed as known; once the
+    # fix is in /repo the line of corpus/c03_far_nullcall.json belongs into corpus/c03_ifaces.jsonl (same format).
+    nullcall = os.path.join(vlib.VERIF, 'corpus', 'c03_far_nullcall.json')
+    if os.path.exists(nullcall) and any(sig == 'far-null-direct-call' for sig, _ in chk.known):
+        j = json.load(open(nullcall))
+        outs = run_prog(exe, write_prog(j['text'], 'nullcall'), j['specs'], j['calls'], j['opt'])
+        chk.count(('far-nullcall', j['text']), nontrivial=True, n=2)
+        if disagree(outs) is not None:
+            chk.finding('far-null-direct-call', dict(kind='ifaces', text=j['text'], specs=j['specs'], calls=j['calls'], opt=j['opt'], outs=outs),
+                        'eager link after a lazy link with code regions > 2 GiB apart: %s' % outs[1][-160:])
     # No site is exempt any more: the defect family the exemption was for is repaired in /repo (C01-16/18/20),
     # its witnesses (corpus/c03_open_O2.jsonl) are replayed as ordinary regression cases, and every generator
     # death is reported through chk.finding ('gen-died:<site>'), i.e. only KNOWN_FINDINGS.txt can list one.
